@@ -49,12 +49,8 @@ def main():
             for path in json.load(open(inp)):
                 try:
                     with xd.quiet():
-                        saved = xload.PYTHON_MAGIC_INT
-                        xload.PYTHON_MAGIC_INT = -1
-                        try:
+                        with xd.forced_portable():
                             (version, ts, magic_int, co, pypy, ss, sip) = load_module(path)
-                        finally:
-                            xload.PYTHON_MAGIC_INT = saved
                         opc = get_opcode(version, pypy)
                 except Exception as e:
                     fh.write(json.dumps({"id": path, "loaderror": "%s: %s" % (type(e).__name__, e)}) + "\n")
